@@ -1,9 +1,13 @@
 #!/bin/bash
-# seed_run.sh <patch> <prop>... : apply a seeded change to /repo, run the checks, undo it
+# seed_run.sh <patch> <prop>... : apply a seeded change to /repo, run the checks, undo it.
+# The evidence files are those of the unchanged tree: they are saved before and put back afterwards.
 P=$1; shift
-git -C /repo apply $P || { echo APPLY-FAIL; exit 1; }
+EV=$(mktemp -d /verif/work/evsave.XXXXXX 2>/dev/null || mktemp -d)
+mkdir -p /verif/work; cp -a /verif/evidence/. $EV/ 2>/dev/null
+git -C /repo apply $P || { echo APPLY-FAIL; rm -rf $EV; exit 1; }
 for prop in "$@"; do
   out=$(cd /verif && ./check $prop 2>&1 | grep -E 'VIOLATION|KNOWN' | head -3)
   echo "$prop: ${out:-PASS(no violation)}"
 done
 git -C /repo checkout -- .
+cp -a $EV/. /verif/evidence/ 2>/dev/null; rm -rf $EV
